@@ -116,6 +116,12 @@ func validateIncludeFileName(s string) error {
 		return errors.New("mustn't include '..' or '.'")
 	}
 
+	for _, part := range strings.Split(s, "/") {
+		if part == "." || part == ".." {
+			return errors.New("mustn't include '..' or '.'")
+		}
+	}
+
 	if strings.ContainsRune(s, '\\') {
 		return errors.New("the separator for directories and files should be the symbol '/'")
 	}
